@@ -49,7 +49,7 @@ func Boot(mode string, k *plan.Knobs) error {
 	var y strings.Builder
 	fmt.Fprintf(&y, "dataPath: %q\n", DataDir)
 	y.WriteString("ssInstanceName: simhost\ningestListenIP: sim\nqueryListenIP: sim\ningestPort: 8081\nqueryPort: 5122\n")
-	y.WriteString("log:\n  logPrefix: \"\"\nanalyticsEnabled: \"false\"\npprofEnabled: \"false\"\n")
+	y.WriteString("log:\n  logPrefix: \"logs/\"\nanalyticsEnabled: \"false\"\npprofEnabled: \"false\"\n")
 	y.WriteString("minionSearch:\n  enabled: true\n  provider: sqlite\n")
 	if k.IdleFlushSecs > 0 {
 		fmt.Fprintf(&y, "idleWipFlushIntervalSecs: %d\n", k.IdleFlushSecs)
